@@ -119,7 +119,7 @@ SHELLS = [
     None, "True", "False", "None", "0", "1", "-1", "2.0", "0.0", "0j", "1j", "''", "'x'", "'True'", "'False'",
     "b''", "b'x'", "[]", "[1]", "[[]]", "()", "(1,)", "{}", "{'a': 1}", "{**zz_d}", "{1}", "{[1]}", "{(1, [2])}",
     "zz_flag", "zz_get()", "not zz_x", "zz_o.flag", "...", "f''", "f'{zz_x}'", "lambda: 0",
-    "1 == 1", "True and zz_x", "zz_t[0]", "1 if zz_x else 0",
+    "1 == 1", "True and zz_x", "zz_t[0]", "1 if zz_x else 0", "{*zz_s}", "(*zz_t,)", "[*zz_l]", "{0}", "(0,)", "'' ''", "set()", "'\\0'",
 ]
 SHELLS_CORE = [None, "True", "False", "0", "1", "''", "()", "[]", "{}", "zz_flag", "{[1]}"]
 
